@@ -451,6 +451,44 @@ func (x *Exec) registerCoverAny(name, text string) *Obligation {
 	return o
 }
 
+// coverAntecedent: a clause `A ==> B` says nothing where A cannot hold. For every such clause the obligation
+// `<clause>/antecedent-reachable` requires A to be satisfiable at some exit (or back edge) where it is defined.
+func (x *Exec) coverAntecedent(st *State, sc *specCtx, name string, e ast.Expr) {
+	ce, ok := e.(*ast.CallExpr)
+	if !ok {
+		return
+	}
+	id, ok := ce.Fun.(*ast.Ident)
+	if !ok || id.Name != "implies" || len(ce.Args) != 2 {
+		return
+	}
+	cname := name + "/antecedent-reachable"
+	o := x.registerCoverAny(cname, "the clause's antecedent can hold (the clause is not vacuous)")
+	var a Term
+	func() {
+		defer func() {
+			if r := recover(); r != nil {
+				if _, isPoison := r.(poisonSignal); isPoison {
+					a = tFalse
+					return
+				}
+				panic(r)
+			}
+		}()
+		v := x.evalSpec(sc, ce.Args[0])
+		if isPoison(v) {
+			a = tFalse
+			return
+		}
+		a = v.(Scalar).T
+	}()
+	if a.S == "false" || strings.Contains(a.S, "undefined!") {
+		return // not defined on this path (a ghost query without answer): does not count as reachable
+	}
+	pc := append(append([]Term(nil), st.pc...), a)
+	o.Instances = append(o.Instances, OblInstance{PC: pc, Goal: tFalse, Trail: append([]string(nil), st.trail...)})
+}
+
 func (x *Exec) explore(st0 *State) {
 	work := []*State{st0}
 	for len(work) > 0 {
@@ -781,6 +819,7 @@ func (x *Exec) loopHeader(st *State, fr *Frame, h *ssa.BasicBlock, ord int, phis
 				isc.evFrom = fr.loopEv[h]
 				isc.head = fr.loopSnap[h]
 				for i, ie := range spec.IterEnsures {
+					x.coverAntecedent(st, isc, x.oblName(kindPrefix+"/iteration", i+1, ie.Label), ie.Expr)
 					x.assert(st, x.oblName(kindPrefix+"/iteration", i+1, ie.Label), "iteration-ensures", ie.Text, ie.Src, x.evalBool(isc, ie.Expr), true)
 				}
 			}
@@ -1247,6 +1286,7 @@ func (x *Exec) checkExit(st *State, fr *Frame, res []Value, panicking bool) {
 		sc.vars["result"] = res[0]
 	}
 	for i, e := range c.Ensures {
+		x.coverAntecedent(st, sc, x.oblName("ensures", i+1, e.Label), e.Expr)
 		x.assert(st, x.oblName("ensures", i+1, e.Label), "ensures", e.Text, e.Src, x.evalBool(sc, e.Expr), true)
 	}
 	if c.HasMod {
@@ -1422,6 +1462,14 @@ func (x *Exec) havocFor(st *State, fr *Frame, name string) {
 		return
 	}
 	items := x.rootC.Havocs[name]
+	if len(items) == 0 {
+		// `havoc-on ServeHTTP: ...` also names "(http.Handler).ServeHTTP"
+		for k, v := range x.rootC.Havocs {
+			if nameMatches(name, k) {
+				items = append(items, v...)
+			}
+		}
+	}
 	if len(items) == 0 {
 		return
 	}
